@@ -45,7 +45,7 @@ async def make_repo(root, name, encrypted):
     return d, keys
 
 
-async def observe(d, pw, key, cache_dir, tag):
+async def observe(d, pw, key, cache_dir, tag, regex=None):
     """-> a comparable record of what the commands do with this cache"""
     r = Repository(Local(d / 'repo'), concurrent=2, quiet=True, cache_directory=cache_dir)
     rec = {}
@@ -53,13 +53,13 @@ async def observe(d, pw, key, cache_dir, tag):
         buf = io.StringIO()
         with lib.quiet() as (out, err):
             await r.unlock(password=pw, key=r.serialize(key) if key else None)
-            await r.list_snapshots()
-            await r.list_files()
+            await r.list_snapshots(snapshot_regex=regex)
+            await r.list_files(snapshot_regex=regex)
             # rows only: the order of rows with equal sort keys follows the completion order of the loader threads
             rec['listing'] = sorted(out.getvalue().splitlines())
         target = d / f'out_{tag}'
         with lib.quiet():
-            res = await r.restore(path=target)
+            res = await r.restore(path=target, snapshot_regex=regex)
         rec['restored'] = sorted((str(p.relative_to(target)), p.read_bytes().hex()) for p in target.rglob('*') if p.is_file())
         shutil.rmtree(target, ignore_errors=True)
     except Exception as e:
@@ -131,12 +131,22 @@ def main():
                         names = [r.parse_snapshot_location(p).name async for p, b in r._load_snapshots() if b['data'] is not None]
                         await r.delete_snapshots(names[:1], confirm=False)
                     await r.close()
-                asyncio.run(delete_one())
+                    return names
+                names = asyncio.run(delete_one())
                 ref2 = asyncio.run(observe(d, pw, key, None, 'ref2'))
                 got = asyncio.run(observe(d, pw, key, shared_cache, 'stale'))
                 if got != ref2:
                     failures.append({'id': f'stale{cases}', 'class': None, 'case': {'encrypted': encrypted, 'user': pw.decode(), 'cache_state': 'stale after foreign delete'},
                                      'detail': {'problem': 'result differs from the cache-less run'}})
+                # the same stale cache with snapshot filters that NAME snapshots in full (the deleted one, a remaining one) or by prefix
+                for what, rx in (('full name of the deleted snapshot', names[0] if names else 'ff'), ('full name of a remaining snapshot', names[-1] if len(names) > 1 else 'ee'),
+                                 ('prefix of the deleted snapshot', '^' + (names[0][:10] if names else 'ff'))):
+                    cases += 1
+                    refx = asyncio.run(observe(d, pw, key, None, 'refx', regex=rx))
+                    gotx = asyncio.run(observe(d, pw, key, shared_cache, 'stalex', regex=rx))
+                    if gotx != refx:
+                        failures.append({'id': f'stale_filter{cases}', 'class': None, 'case': {'encrypted': encrypted, 'user': pw.decode(), 'cache_state': 'stale after foreign delete', 'snapshot_filter': what},
+                                         'detail': {'problem': 'result differs from the cache-less run', 'with_cache': str(gotx)[:200], 'without': str(refx)[:200]}})
     lib.emit({'status': 'ok', 'cases': cases, 'distinct': cases, 'failures': failures[:10], 'samples': samples,
               'exhaustive': False, 'reproduced': bool(failures)})
 
